@@ -45,14 +45,15 @@ func init() {
 			"(D4) the secret half of the ephemeral DH comes only from box.GenerateKey(crypto/rand.Reader) executed inside the session (no cached, package-level or deterministic key). " +
 			"(D5) a peer-supplied X25519 point that reaches a non-contributory DH (box.Precompute, curve25519.ScalarMult) must pass a check that rejects low-order points: an API that errors on them (curve25519.X25519, ecdh ECDH) or an equality test on the point / the secret computed from it whose equal side rejects; the check must be enforced before any signature over the shared secret is produced and before success. " +
 			"(D6) the stream handler records the incoming request only after the responder handshake returned nil, only on the equal side of a comparison between the announced ShareableContact.Pk and the authenticated key, and the recorded contact carries the authenticated key; the sender marks the request sent only after its handshake returned nil, for the key it passed to the handshake. " +
+			"(D7) the function that turns the DH outputs into the box keys (found by role: a module function on the path from a box Seal/Open key argument that calls a hash primitive) returns the digest of a hash fed with every one of its byte parameters: a returned array no digest is stored into, a hash.Hash.Sum whose result is discarded although its argument is not a zero-length slice with room for the digest (Sum appends), or a parameter (or all but one element of it) that never reaches the hash input are reported; the provenance models Sum accordingly, so D3 sees such a key as mixing nothing. " +
 			"Not decided: a symbolic (Dolev-Yao) proof of the protocol; unforgeability of Ed25519 and secrecy of NaCl box; that the two ends agree on nonces and box keys (any honest run decides that); distinctness of the two step nonces (the step keys differ, so it is not a necessary condition); that a box-open failure is tested (a failed open yields nil plaintext which the following parse and Verify reject); rejection of non-Ed25519 identity keys (three redundant checks exist, none individually necessary); frame bounds (C18); the reference value of an equality-based low-order check; the order of two assignments to the same field inside one function (provenance is flow-insensitive).",
 		Trusted:     []string{"golang.org/x/tools go/packages+go/ssa (v0.29.0)", "semantics of nacl/box, curve25519.X25519 (errors on low-order input), libp2p crypto.PubKey.Verify", "go/types"},
 		Assumptions: []string{"dependencies behave as documented; only module code is analysed", "data flow through struct fields is approximated per (struct type, field) over the functions reachable from one entry point"},
-		Floors:      map[string]int{"D1": 4, "D2": 1, "D3": 2, "D4": 2, "D5": 2, "D6": 5},
+		Floors:      map[string]int{"D1": 4, "D2": 1, "D3": 2, "D4": 2, "D5": 2, "D6": 5, "D7": 1},
 		Borrows: []Borrow{
 			{From: "C18", Rules: []string{"D3", "D4"}, Why: "every handshake step is one varint-delimited frame (pkg/protoio/varint.go is an anchor of this property): a frame whose body is read with a single Read decodes stale bytes of the previous frame, so a truncated acknowledge is taken for Success=true and honest parties on a fragmenting stream fail to complete"},
 		},
-		Run:         runC06,
+		Run: runC06,
 	})
 }
 
@@ -63,6 +64,7 @@ func init() {
 type c06Prov struct {
 	Atoms map[string]bool
 	Sites map[ssa.Instruction]bool
+	Fns   map[*ssa.Function]bool // module functions whose results were looked into
 }
 
 func (p *c06Prov) atomList() []string {
@@ -376,6 +378,10 @@ func (st *c06State) visit(v ssa.Value, fr *c06Frame, depth int) {
 	case *ssa.Lookup:
 		st.visit(x.X, fr, depth+1)
 	case *ssa.Slice:
+		if lbl, ok := st.wk.stop[stripConv(x.X)]; ok && (x.Low != nil || x.High != nil) {
+			st.p.Atoms[lbl+"[sub]"] = true
+			return
+		}
 		st.visit(x.X, fr, depth+1)
 	case *ssa.Extract:
 		if call, ok := x.Tuple.(*ssa.Call); ok {
@@ -649,6 +655,20 @@ func (st *c06State) content(addr ssa.Value, fr *c06Frame, depth int) {
 			}
 		}
 	case *ssa.IndexAddr:
+		// an element of a named (stop) value: say whether one fixed element or any element
+		if lbl, ok := st.wk.stop[stripConv(a.X)]; ok {
+			switch {
+			case c06FullRangeIndex(a.Index, stripConv(a.X)):
+				st.p.Atoms[lbl+"[*]"] = true
+			default:
+				if _, isC := a.Index.(*ssa.Const); isC {
+					st.p.Atoms[lbl+"[k]"] = true
+				} else {
+					st.p.Atoms[lbl+"[?]"] = true
+				}
+			}
+			return
+		}
 		st.visit(a.X, fr, depth+1)
 	default:
 		st.visit(addr, fr, depth+1)
@@ -801,6 +821,21 @@ func (st *c06State) callWrite(ci ssa.CallInstruction, i int, fr *c06Frame, depth
 			st.visit(cc.Args[0], fr, depth+1)
 		}
 		return
+	case c06IsHashSum(key):
+		// Sum APPENDS the digest to its argument and returns the extended slice: the array
+		// behind the argument receives the digest only when the argument is a zero-length slice
+		// of it with room for the digest; otherwise the argument is only read
+		recv, arg, ai := c06SumParts(cc)
+		if i == ai && arg != nil {
+			if n, ok := c06ZeroLenSliceOfArray(arg); ok {
+				if sz := c06DigestSize(recv); sz == 0 || n >= sz {
+					st.p.Atoms["hash"] = true
+					st.p.Sites[ci] = true
+					st.visit(recv, fr, depth+1)
+				}
+			}
+		}
+		return
 	case key == "crypto/rand.Read":
 		st.p.Atoms["rand"] = true
 		st.p.Sites[ci] = true
@@ -867,6 +902,10 @@ func (st *c06State) call(call *ssa.Call, idx int, fr *c06Frame, depth int) {
 			n++
 		}
 		if n < 10 {
+			if st.p.Fns == nil {
+				st.p.Fns = map[*ssa.Function]bool{}
+			}
+			st.p.Fns[f] = true
 			for _, r := range returnsOf(f) {
 				if st.wk.deadInstr(r) {
 					continue
@@ -880,6 +919,9 @@ func (st *c06State) call(call *ssa.Call, idx int, fr *c06Frame, depth int) {
 	}
 	st.p.Atoms["call:"+key] = true
 	st.p.Sites[call] = true
+	if c06IsHashSum(key) || c06HashFuncSize(key) > 0 {
+		st.p.Atoms["hash"] = true
+	}
 	if cc.IsInvoke() {
 		st.visit(cc.Value, fr, depth+1)
 	} else if _, isF := cc.Value.(*ssa.Function); !isF {
@@ -913,6 +955,174 @@ func (st *c06State) call(call *ssa.Call, idx int, fr *c06Frame, depth int) {
 			}
 		}
 	}
+}
+
+// ---- hash primitives
+
+// c06IsHashSum: the Sum method of a hash.Hash (interface or concrete digest).
+func c06IsHashSum(key string) bool {
+	return strings.HasSuffix(key, ").Sum") && (strings.Contains(key, "hash.Hash") || strings.Contains(key, "crypto/"))
+}
+
+// c06HashFuncSize: digest size of a one-shot hash function, 0 when key is none.
+func c06HashFuncSize(key string) int {
+	switch key {
+	case "crypto/sha256.Sum256", "crypto/sha512.Sum512_256", "golang.org/x/crypto/blake2b.Sum256", "golang.org/x/crypto/blake2s.Sum256", "golang.org/x/crypto/sha3.Sum256", "crypto/sha3.Sum256":
+		return 32
+	case "crypto/sha256.Sum224", "crypto/sha512.Sum512_224", "golang.org/x/crypto/sha3.Sum224", "crypto/sha3.Sum224":
+		return 28
+	case "crypto/sha512.Sum512", "golang.org/x/crypto/blake2b.Sum512", "golang.org/x/crypto/sha3.Sum512", "crypto/sha3.Sum512":
+		return 64
+	case "crypto/sha512.Sum384", "golang.org/x/crypto/blake2b.Sum384", "golang.org/x/crypto/sha3.Sum384", "crypto/sha3.Sum384":
+		return 48
+	}
+	return 0
+}
+
+// c06HashNewSize: digest size of the hash.Hash a constructor returns, 0 when key is none.
+func c06HashNewSize(key string) int {
+	switch key {
+	case "crypto/sha256.New", "crypto/sha512.New512_256", "golang.org/x/crypto/sha3.New256", "crypto/sha3.New256", "golang.org/x/crypto/blake2b.New256", "golang.org/x/crypto/blake2s.New256":
+		return 32
+	case "crypto/sha256.New224", "crypto/sha512.New512_224", "golang.org/x/crypto/sha3.New224", "crypto/sha3.New224":
+		return 28
+	case "crypto/sha512.New", "golang.org/x/crypto/sha3.New512", "crypto/sha3.New512", "golang.org/x/crypto/blake2b.New512":
+		return 64
+	case "crypto/sha512.New384", "golang.org/x/crypto/sha3.New384", "crypto/sha3.New384", "golang.org/x/crypto/blake2b.New384":
+		return 48
+	}
+	return 0
+}
+
+// c06SumParts: receiver, data argument and its index in cc.Args of a Sum call.
+func c06SumParts(cc *ssa.CallCommon) (recv, arg ssa.Value, argIdx int) {
+	if cc.IsInvoke() {
+		if len(cc.Args) == 1 {
+			return cc.Value, cc.Args[0], 0
+		}
+		return cc.Value, nil, -1
+	}
+	if len(cc.Args) == 2 {
+		return cc.Args[0], cc.Args[1], 1
+	}
+	return nil, nil, -1
+}
+
+// c06DigestSize: digest size of the hash value h when its constructor is visible, else 0.
+func c06DigestSize(h ssa.Value) int {
+	for i := 0; i < 6 && h != nil; i++ {
+		switch x := h.(type) {
+		case *ssa.Call:
+			return c06HashNewSize(calleeKey(x.Common()))
+		case *ssa.Extract:
+			h = x.Tuple
+		case *ssa.MakeInterface:
+			h = x.X
+		case *ssa.ChangeInterface:
+			h = x.X
+		case *ssa.TypeAssert:
+			h = x.X
+		default:
+			return 0
+		}
+	}
+	return 0
+}
+
+// c06ZeroLenSliceOfArray: v is arr[:0] (or arr[0:0]) of an array; returns the array length.
+func c06ZeroLenSliceOfArray(v ssa.Value) (int, bool) {
+	sl, ok := v.(*ssa.Slice)
+	if !ok || sl.High == nil {
+		return 0, false
+	}
+	if h, isC := constInt(sl.High); !isC || h != 0 {
+		return 0, false
+	}
+	if sl.Low != nil {
+		if l, isC := constInt(sl.Low); !isC || l != 0 {
+			return 0, false
+		}
+	}
+	pt, ok := sl.X.Type().Underlying().(*types.Pointer)
+	if !ok {
+		return 0, false
+	}
+	at, ok := pt.Elem().Underlying().(*types.Array)
+	if !ok {
+		return 0, false
+	}
+	return int(at.Len()), true
+}
+
+// c06FullRangeIndex: idx runs over every index of base: the counter of `for i := 0; i <
+// len(base); i++` or of `for range base` (go/ssa: phi from -1, used as phi+1, tested < len).
+func c06FullRangeIndex(idx ssa.Value, base ssa.Value) bool {
+	isLenOfBase := func(v ssa.Value) bool {
+		call, ok := v.(*ssa.Call)
+		if !ok || calleeKey(call.Common()) != "builtin.len" || len(call.Common().Args) != 1 {
+			return false
+		}
+		return stripConv(call.Common().Args[0]) == base
+	}
+	boundedByLen := func(v ssa.Value) bool {
+		if v.Referrers() == nil {
+			return false
+		}
+		for _, r := range *v.Referrers() {
+			bo, ok := r.(*ssa.BinOp)
+			if !ok || bo.Referrers() == nil {
+				continue
+			}
+			if !(bo.Op == token.LSS && bo.X == v && isLenOfBase(bo.Y) || bo.Op == token.GTR && bo.Y == v && isLenOfBase(bo.X)) {
+				continue
+			}
+			for _, r2 := range *bo.Referrers() {
+				if _, isIf := r2.(*ssa.If); isIf {
+					return true
+				}
+			}
+		}
+		return false
+	}
+	startsAt := func(p *ssa.Phi, n int64) bool {
+		for _, e := range p.Edges {
+			if c, ok := constInt(e); ok && c == n {
+				return true
+			}
+		}
+		return false
+	}
+	stepsByOne := func(p *ssa.Phi) bool {
+		for _, e := range p.Edges {
+			if bo, ok := e.(*ssa.BinOp); ok && bo.Op == token.ADD && bo.X == ssa.Value(p) {
+				if c, isC := constInt(bo.Y); isC && c == 1 {
+					return true
+				}
+			}
+		}
+		return false
+	}
+	switch x := idx.(type) {
+	case *ssa.Phi:
+		return len(x.Edges) == 2 && startsAt(x, 0) && stepsByOne(x) && boundedByLen(x)
+	case *ssa.BinOp:
+		p, ok := x.X.(*ssa.Phi)
+		if !ok || x.Op != token.ADD || len(p.Edges) != 2 {
+			return false
+		}
+		if c, isC := constInt(x.Y); !isC || c != 1 {
+			return false
+		}
+		// range loop: the incremented value is both the index and the next phi edge
+		next := false
+		for _, e := range p.Edges {
+			if e == ssa.Value(x) {
+				next = true
+			}
+		}
+		return next && startsAt(p, -1) && boundedByLen(x)
+	}
+	return false
 }
 
 // c06AbsorbingMethod: a method through which an object takes in the data of its arguments.
@@ -1305,6 +1515,169 @@ func runC06(c *Ctx) {
 		c06RuleD5(c, r)
 	}
 	c06RuleD6(c, entryReq, entryResp)
+	c06RuleD7(c, roles)
+}
+
+// ---- D7: the box keys are a hash of all the secrets handed to the key-derivation function.
+//
+// D3 establishes that the DH outputs are *passed* to whatever computes the box key. The
+// function that turns them into the key (found by role: a module function on the path from a
+// box Seal/Open key argument of the handshake that calls a hash primitive) must return the
+// output of a hash over every byte parameter; otherwise the key is a constant or ignores one
+// of the secrets, both ends still agree, and step 3 is no longer bound to the responder.
+func c06RuleD7(c *Ctx, roles []*c06Role) {
+	isBoxOp := func(k string) bool { return k == c06OpenAP || k == c06SealAP || k == keySBOpen || k == keySBSeal }
+	isHashPrim := func(k string) bool { return c06IsHashSum(k) || c06HashFuncSize(k) > 0 || c06HashNewSize(k) > 0 }
+	keyFns := map[*ssa.Function]bool{}
+	nBox := 0
+	for _, r := range roles {
+		for _, ci := range r.callsKeyed(isBoxOp) {
+			args := ci.Common().Args
+			if len(args) != 4 {
+				continue
+			}
+			nBox++
+			p := r.Wk.prov(args[3])
+			cands := map[*ssa.Function]bool{ci.Parent(): true}
+			for f := range p.Fns {
+				cands[f] = true
+			}
+			for f := range cands {
+				if len(callsIn(f, func(k string, _ *ssa.CallCommon) bool { return isHashPrim(k) })) > 0 {
+					keyFns[f] = true
+				}
+			}
+		}
+	}
+	c.count("box_sites", nBox)
+	if nBox == 0 {
+		return // D3 reports the absence of boxes
+	}
+	if len(keyFns) == 0 {
+		c.undecided("D7", "box key derivation", token.NoPos, "no function on the path to a handshake box key calls a hash primitive (sha256/sha512/sha3/blake2 one-shot functions and hash.Hash are modelled): the key derivation is not recognised")
+		return
+	}
+	byteish := func(t types.Type) bool {
+		for i := 0; i < 3; i++ {
+			switch u := t.Underlying().(type) {
+			case *types.Slice:
+				t = u.Elem()
+				continue
+			case *types.Array:
+				t = u.Elem()
+				continue
+			case *types.Pointer:
+				t = u.Elem()
+				continue
+			case *types.Basic:
+				return u.Kind() == types.Byte || u.Kind() == types.Uint8 || u.Info()&types.IsString != 0
+			}
+			return false
+		}
+		return false
+	}
+	for _, fn := range c06SortedFuncs(keyFns) {
+		c.analysed(fn)
+		construct := fnName(fn) + "+box key derivation"
+		wk := c06NewWalker(c.W, map[*ssa.Function]bool{fn: true}, nil)
+		type par struct {
+			p   *ssa.Parameter
+			lbl string
+		}
+		var pars []par
+		for i, p := range fn.Params {
+			if byteish(p.Type()) {
+				lbl := fmt.Sprintf("P%d", i)
+				wk.stop[p] = lbl
+				pars = append(pars, par{p, lbl})
+			}
+		}
+		var problems, unknown []string
+		// (b) a digest that is computed and thrown away
+		for _, ci := range callsIn(fn, func(k string, _ *ssa.CallCommon) bool { return c06IsHashSum(k) }) {
+			v := ci.Value()
+			used := false
+			if v != nil && v.Referrers() != nil {
+				for _, r := range *v.Referrers() {
+					if _, dbg := r.(*ssa.DebugRef); !dbg {
+						used = true
+					}
+				}
+			}
+			if used {
+				continue
+			}
+			recv, arg, _ := c06SumParts(ci.Common())
+			n, zero := 0, false
+			if arg != nil {
+				n, zero = c06ZeroLenSliceOfArray(arg)
+			}
+			sz := c06DigestSize(recv)
+			if !zero || (sz > 0 && n < sz) {
+				problems = append(problems, fmt.Sprintf("the result of Sum at %s is discarded and its argument is not a zero-length slice of an array with room for the digest: Sum appends to its argument, so the digest is lost", c.pos(posOf(ci))))
+			}
+		}
+		// (a) what is returned is a hash output, (c) over every byte parameter
+		inputs := &c06Prov{Atoms: map[string]bool{}, Sites: map[ssa.Instruction]bool{}}
+		nRet := 0
+		for _, ret := range returnsOf(fn) {
+			if !isSuccessReturn(ret) {
+				continue
+			}
+			for ri, res := range retResults(ret) {
+				if !byteish(fn.Signature.Results().At(ri).Type()) || isNilConst(res) {
+					continue
+				}
+				nRet++
+				p := wk.prov(res)
+				hs := p.sitesKeyed(func(k string) bool { return c06IsHashSum(k) || c06HashFuncSize(k) > 0 })
+				if len(hs) == 0 {
+					problems = append(problems, fmt.Sprintf("the value returned at %s is not the output of a hash: no digest is stored into it (sources: %v)", c.pos(posOf(ret)), p.atomList()))
+					continue
+				}
+				for _, h := range hs {
+					cc := h.Common()
+					var in ssa.Value
+					if c06IsHashSum(calleeKey(cc)) {
+						in, _, _ = c06SumParts(cc)
+					} else if len(cc.Args) > 0 {
+						in = cc.Args[0]
+					}
+					if in == nil {
+						continue
+					}
+					ip := wk.prov(in)
+					for a := range ip.Atoms {
+						inputs.Atoms[a] = true
+					}
+				}
+			}
+		}
+		if nRet == 0 {
+			unknown = append(unknown, "the function returns no byte value on success")
+		}
+		if len(problems) == 0 && nRet > 0 {
+			for _, pr := range pars {
+				switch {
+				case inputs.has(pr.lbl) || inputs.has(pr.lbl+"[*]"):
+				case inputs.has(pr.lbl+"[k]") || inputs.has(pr.lbl+"[sub]"):
+					problems = append(problems, fmt.Sprintf("only part of parameter %s reaches the hash input (a fixed element or a sub-slice): the other secrets handed in do not influence the key", pr.p.Name()))
+				case inputs.has(pr.lbl + "[?]"):
+					unknown = append(unknown, fmt.Sprintf("parameter %s is read in a loop whose range is not recognised as covering every element", pr.p.Name()))
+				default:
+					problems = append(problems, fmt.Sprintf("parameter %s never reaches the hash input: it does not influence the key", pr.p.Name()))
+				}
+			}
+		}
+		switch {
+		case len(problems) > 0:
+			c.fail("D7", construct, fn.Pos(), "the handshake box keys are computed by %s, which does not return a hash of all its inputs: %s; both ends still derive the same key, so honest runs pass, but the step-3 box no longer binds the proof to the responder's account key (a relay can forward it)", fnName(fn), strings.Join(problems, "; "))
+		case len(unknown) > 0:
+			c.undecided("D7", construct, fn.Pos(), "key derivation in %s not decided: %s", fnName(fn), strings.Join(unknown, "; "))
+		default:
+			c.ok("D7", construct, fn.Pos(), "the box key returned is the digest of a hash fed with every byte parameter")
+		}
+	}
 }
 
 // ---- D4: the own secret of the transcript DH is generated in the session from crypto/rand.
